@@ -415,7 +415,7 @@ def verify_config(cname, cfg, concolic=True, timeout_ms=None):
     t0 = time.time()
     res = {'contract': cname, 'cfg': cfg, 'paths': 0, 'obligations': [], 'undecided_paths': [],
            'concolic': 0, 'concolic_skipped': 0, 'checker_errors': [], 'native_failures': [],
-           'solver_s': 0.0, 'assumed': set(), 'notes': [], 'exc_paths': 0, 'clauses_reached': {}}
+           'solver_s': 0.0, 'assumed': set(), 'notes': [], 'exc_paths': 0, 'clauses_reached': {}, 'fp_exact_proved': 0, 'fp_approx': 0}
     prefix = []
     meta = {}
     while True:
@@ -481,6 +481,8 @@ def verify_config(cname, cfg, concolic=True, timeout_ms=None):
                 res['checker_errors'].append('concolic: %s: %s\n%s' % (type(e).__name__, e, traceback.format_exc()[-1500:]))
         res['paths'] += 1
         res['solver_s'] += ctx.solver_s
+        res['fp_exact_proved'] += ctx.fp_exact_proved
+        res['fp_approx'] += ctx.fp_approx
         res['assumed'] |= ctx.assumed_used
         for n in ctx.notes:
             if n not in res['notes'] and len(res['notes']) < 20:
